@@ -61,24 +61,24 @@ theorem endTime_append (arr : Nat) (a b : List TEv) : endTime arr (a ++ b) = end
 /-- a terminating event never makes `read()` return True -/
 theorem term_not_true (c : Cfg) (n : Nat) (te : TEv) (rest : List TEv) (s : St) (h : isTerm te.ev = true)
     (ha : s.arr + te.dt ≤ s.now) :
-    afterRead c n (readEvents c (te :: rest) s) =
+    afterRead c (dispLoop c n) (readEvents c (te :: rest) s) =
     fin (readEvents c (te :: rest) s) := by
   have key : (readEvents c (te :: rest) s).2 ≠ .ok true := by
-    simp only [readEvents, ha, ↓reduceIte]
+    simp only [readEvents, ha, ↓reduceIte, Bool.not_true, Bool.false_eq_true]
     cases hk : te.ev with
     | message op p f => simp [hk, isTerm] at h
     | ping p => simp [hk, isTerm] at h
     | pong p => simp [hk, isTerm] at h
     | part => simp [hk, isTerm] at h
-    | eof => simp
-    | reset => simp
-    | protoError => simp
-    | payloadError => simp
+    | eof => simp [handleEv]
+    | reset => simp [handleEv]
+    | protoError => simp [handleEv]
+    | payloadError => simp [handleEv]
     | close b =>
-      simp only [gen_closeToTeardown, ↓reduceIte]
+      simp only [handleEv, gen_closeToTeardown, ↓reduceIte]
       generalize teardown c _ (some b) = x
       rcases x with ⟨s', r⟩
-      cases r <;> simp
+      cases r <;> simp [asRead]
   unfold afterRead
   rcases hx : readEvents c (te :: rest) s with ⟨s', r⟩
   rw [hx] at key
@@ -89,8 +89,8 @@ theorem term_not_true (c : Cfg) (n : Nat) (te : TEv) (rest : List TEv) (s : St) 
     | false => rfl
     | true => exact absurd rfl key
 
-/-- **one connection, whole run**: the run equals "process the legal traffic, then the terminating event" -/
-theorem run_single (c : Cfg) (hq : Quiet c) (hacc : argsAccepted c.iv c.to = true) (hiv : c.iv = 0)
+/-- the dispatcher loop on one connection: "process the legal traffic, then the terminating event" -/
+theorem loop_single (c : Cfg) (hq : Quiet c) (hacc : argsAccepted c.iv c.to = true) (hiv : c.iv = 0)
     (hrc : c.reconnect = 0) (s0 : St) (legal : List TEv) (te : TEv)
     (hs : s0.sock = none) (hp : s0.ping = none) (hl : s0.lastPing = 0)
     (hd : s0.dials = [.established (legal ++ [te])])
@@ -100,9 +100,8 @@ theorem run_single (c : Cfg) (hq : Quiet c) (hacc : argsAccepted c.iv c.to = tru
     ∃ sT w, AtTerm sT te w ∧ w.idx = s0.nextIdx ∧ sT.now = endTime s0.now (legal ++ [te]) ∧
       sT.trace = (runLegal c (enterLoop c s0 (legal ++ [te]) []) legal).trace ∧
       sT.calls = (runLegal c (enterLoop c s0 (legal ++ [te]) []) legal).calls ∧
-      runForever c s0 = finishRun c (fin (readEvents c [te] sT)) := by
+      dispLoop c c.fuel (enterLoop c s0 (legal ++ [te]) []) = fin (readEvents c [te] sT) := by
   have hT := selectTimeout_pos c hacc
-  rw [runForever_reduce c hq s0 (legal ++ [te]) [] hacc hs hiv hrc hd]
   let s3 := enterLoop c s0 (legal ++ [te]) []
   have hu3 : Up s3 := ⟨rfl, ⟨_, rfl, rfl, rfl, rfl⟩, hp, hl⟩
   have hend1 : endTime s0.now legal ≤ c.horizon := by
@@ -148,5 +147,23 @@ theorem run_single (c : Cfg) (hq : Quiet c) (hacc : argsAccepted c.iv c.to = tru
     rw [h3] at this
     injection this with this
     rw [this]
+
+/-- **one connection, whole run** -/
+theorem run_single (c : Cfg) (hq : Quiet c) (hacc : argsAccepted c.iv c.to = true) (hiv : c.iv = 0)
+    (hrc : c.reconnect = 0) (s0 : St) (legal : List TEv) (te : TEv)
+    (hs : s0.sock = none) (hp : s0.ping = none) (hl : s0.lastPing = 0)
+    (hd : s0.dials = [.established (legal ++ [te])])
+    (hleg : ∀ e ∈ legal, isLegal e.ev = true) (hterm : isTerm te.ev = true)
+    (hfuel : need0 (selectTimeout c) (legal ++ [te]) + 1 ≤ c.fuel)
+    (hz : endTime s0.now (legal ++ [te]) ≤ c.horizon) :
+    ∃ sT w, AtTerm sT te w ∧ w.idx = s0.nextIdx ∧ sT.now = endTime s0.now (legal ++ [te]) ∧
+      sT.trace = (runLegal c (enterLoop c s0 (legal ++ [te]) []) legal).trace ∧
+      sT.calls = (runLegal c (enterLoop c s0 (legal ++ [te]) []) legal).calls ∧
+      runForever c s0 = finishRun c (fin (readEvents c [te] sT)) ∧
+      runForeverO c s0 = finishRunO c (fin (readEvents c [te] sT)) := by
+  obtain ⟨sT, w, h1, h2, h3, h4, h5, h6⟩ := loop_single c hq hacc hiv hrc s0 legal te hs hp hl hd hleg hterm hfuel hz
+  refine ⟨sT, w, h1, h2, h3, h4, h5, ?_, ?_⟩
+  · rw [runForever_reduce c hq s0 (legal ++ [te]) [] hacc hs hiv hrc hd, h6]
+  · rw [runForeverO_reduce c hq s0 (legal ++ [te]) [] hacc hs hiv hrc hd, h6]
 
 end WS.Lemmas.App
